@@ -30,6 +30,10 @@ def step (t : DTree) (line : String) : List String :=
       match ind.toNat? with
       | some i => ["X " ++ String.intercalate " " ((DTree.textLines i 0 t).map (fun (n, nm) => s!"{n}:{encName nm}"))]
       | none => ["bad-op"]
+  | ["texts", ind] =>     -- show_status=True: same lines (the status suffix is stripped by the harness)
+      match ind.toNat? with
+      | some i => ["X " ++ String.intercalate " " ((DTree.textLines i 0 t).map (fun (n, nm) => s!"{n}:{encName nm}"))]
+      | none => ["bad-op"]
   | ["dot", vis, col] =>
       match vis.toNat? with
       | some v =>
